@@ -1719,6 +1719,22 @@ ASSUMPTIONS += ['translator tie: index values are those of the universe of coq/P
                 'the empty python list has two representations (list of ints / list of bools), as in the model']
 
 
+TRUSTED += ['translate/pypdata2coq.py, second part: pipeline.ensure_dim and pipeline.concat on ANNOTATED pieces (gen_ensure_dim, gen_concat; tie '
+            'theorems in coq/PData/ProofsTieConcat.v); pinned on their exact text: the signature and whole body of dim_axis and the call '
+            '`dim, axis = dim_axis(axis)` (primitive py_dim_axis of coq/PData/TieLibConcat.v), `is_pipeline_data = [isinstance(a, PipelineData) '
+            'for a in arrays]` with the two tests on it (all pieces are annotated: `not any` holds for the empty list only, where '
+            'np.concatenate raises ValueError; the plain-ndarray path of concat is NOT covered by the tie), `result = np.concatenate(arrays, '
+            'axis=axis)` (Model.cat_all) and `return PipelineData(result, fs=fs, s0=s0, channel=channel, metadata=metadata)` (Model.ctor_ok), '
+            'the default `axis=-1`; x.shape[-1] is read as n_time; self-tested on ~190 concat calls against the real function',
+            'the primitives of coq/PData/TieLibConcat.v as modelled: list_hd (l[0]), gmap (a list comprehension whose element may raise), '
+            'obj_as_pd (a scalar piece is refused as in Model.all_arrays), rate_eqb (== on exact rates), eqb_lab (== on labels / metadata '
+            'identifiers), labs_concat / lab_extend / lab_append (flattening label lists; a scalar where a list is iterated: TypeError as '
+            'in Model.merge_labs)']
+ASSUMPTIONS += ['translator tie (concat): for the epoch axis the equality is proved when the first piece has at most 3 dimensions (true of every '
+                'well-formed array; a 4-D first piece is refused by ensure_dim in model and generated function alike); no hypothesis for '
+                'time / channel, an unsupported axis or the empty list']
+
+
 def translate(repo):
     """Regenerate coq/gen/PDataGen.v from <repo>/psiaudio/pipeline.py and self-test it.  A source the translator cannot digest, a
     generated file that does not type-check or a failed self-test raise: the driver reports a broken tie (fail closed)."""
@@ -1748,7 +1764,7 @@ def translate(repo):
         raise vlib.MachineryError(f'psiaudio.pipeline is {pipeline.__file__}, not the translated source under {repo}')
     terms = pypdata2coq.selftest_terms(pipeline, random.Random(7))
     try:
-        failing = vlib.run_cases(PROP, ['PData.TieLib', 'gen.PDataGen'], terms, tag='tieself')
+        failing = vlib.run_cases(PROP, ['PData.TieLib', 'PData.TieLibConcat', 'gen.PDataGen'], terms, tag='tieself')
     except vlib.MachineryError as e:
         raise pypdata2coq.TranslatorGap('self-test could not be evaluated: ' + str(e)[-600:])
     if failing:
